@@ -253,7 +253,16 @@ fn check_rewrite(words: &[(u16, u16)], st: &mut Stats) {
         _ => vec![],
     };
     let spec = Spec {
-        entries: words.iter().enumerate().map(|(i, w)| ESpec { name: format!("t{i}").into_bytes(), content: b"x".to_vec(), date: w.0, time: w.1, local_extra: extra_of(i), central_extra: extra_of(i), ..Default::default() }).collect(),
+        // (and the entries come from different hosts: Unix with a mode, Unix without attributes, MS-DOS, NTFS, Darwin - what
+        // else the central record says about an entry has no bearing on its timestamp)
+        entries: words
+            .iter()
+            .enumerate()
+            .map(|(i, w)| {
+                let (made_by, ext_attr) = [((3u16 << 8) | 20, 0o100644u32 << 16), ((3 << 8) | 20, 0), (20, 0x20), (20, 0), ((10 << 8) | 45, 0x20), ((19 << 8) | 30, 0o100600 << 16)][i % 6];
+                ESpec { name: format!("t{i}").into_bytes(), content: b"x".to_vec(), date: w.0, time: w.1, local_extra: extra_of(i), central_extra: extra_of(i), made_by, ext_attr, ..Default::default() }
+            })
+            .collect(),
         ..Default::default()
     };
     let src = build(&spec).0;
